@@ -67,6 +67,7 @@ def explore(ctx, check, n, label='h', max_shrinks_per_raw=2):
     """Generate and run n histories; record stats, shrink and classify failures."""
     st = ctx.stats
     raw_seen = {}
+    known_budget = [60]
     for i in range(n):
         if ctx.out_of_time():
             st.notes.append('%s: stopped at %d/%d histories (time budget)' % (label, i, n))
@@ -90,4 +91,9 @@ def explore(ctx, check, n, label='h', max_shrinks_per_raw=2):
             st.notes.append('shrinker error: ' + traceback.format_exc()[-300:])
             h2, f2 = h, f
         sig = check.signature(h2, f2)
+        if sig in getattr(ctx, 'known', ()) and known_budget[0] > 0:
+            # a failure that turned out to be a listed known finding does not use up the shrink budget of its raw
+            # class: a different defect behind the same read would otherwise never be looked at
+            known_budget[0] -= 1
+            raw_seen[raw] -= 1
         st.violation(sig, repr(f2), {'history': h2})
